@@ -2,12 +2,14 @@ package props
 
 import (
 	"bytes"
+	"crypto/sha256"
 	"encoding/hex"
 	"fmt"
 	"math/big"
 	"os"
 	"os/exec"
 	"strings"
+	"sync"
 
 	secp256k1 "gitlab.com/yawning/secp256k1-voi"
 	"gitlab.com/yawning/secp256k1-voi/secec"
@@ -141,6 +143,25 @@ func ColdMain(spec string) {
 		} else {
 			out = k.CompressedBytes()
 		}
+	case "gtable":
+		// every single-byte scalar b*256^pos through both fixed-base entry points
+		h := sha256.New()
+		zero := secp256k1.NewScalar()
+		for pos := 0; pos < 32; pos++ {
+			for b := 1; b < 256; b++ {
+				var sb [32]byte
+				sb[31-pos] = byte(b)
+				s, _ := secp256k1.NewScalarFromBytes(&sb)
+				p1 := new(Point).ScalarBaseMult(s).UncompressedBytes()
+				p2 := new(Point).DoubleScalarMultBasepointVartime(s, zero, secp256k1.NewGeneratorPoint()).UncompressedBytes()
+				if !bytes.Equal(p1, p2) {
+					fmt.Printf("gtable: pos=%d b=%d: ScalarBaseMult=%x, DoubleScalarMultBasepointVartime(s,0,G)=%x\n", pos, b, p1, p2)
+				}
+				h.Write(p1)
+				h.Write(p2)
+			}
+		}
+		out = h.Sum(nil)
 	case "generate":
 		k, err := secec.GenerateKey()
 		if err != nil {
@@ -234,9 +255,37 @@ func coldCase(rng *gen.Rng, op string, pool []namedPt) (spec string, want []byte
 		return fmt.Sprintf("parsepub:%x", oracle.SPKIWrite(oracle.EncodeUncompressed(Q))), oracle.EncodeCompressed(Q)
 	case "generate":
 		return fmt.Sprintf("generate:%x", dig), []byte{1}
+	case "gtable":
+		return "gtable", gtableDigest()
 	}
 	panic("unknown cold op " + op)
 }
+
+var gtableOnce struct {
+	sync.Once
+	sum []byte
+}
+
+// gtableDigest is the expected output of the "gtable" cold op, from the reference model.
+func gtableDigest() []byte {
+	gtableOnce.Do(func() {
+		tbl := oracleGTable()
+		h := sha256.New()
+		for pos := 0; pos < 32; pos++ {
+			for b := 1; b < 256; b++ {
+				e := oracle.EncodeUncompressed(tbl[pos][b-1])
+				h.Write(e)
+				h.Write(e)
+			}
+		}
+		gtableOnce.sum = h.Sum(nil)
+	})
+	return gtableOnce.sum
+}
+
+// coldProcs are the scheduler widths (GOMAXPROCS of the child) the cold-start
+// children are run under; 0 leaves the environment alone.
+var coldProcs = []int{0, 7, 1, 3, 13, 2, 11, 32, 5, 9, 31, 6, 14, 19, 23, 64, 4, 29, 17, 21, 33, 10, 25, 27, 8, 12, 15, 18, 22, 26, 28, 37}
 
 // glvOrValue draws a scalar from the GLV-steered or the generic value classes.
 func glvOrValue(rng *gen.Rng) (*big.Int, string) {
@@ -261,8 +310,13 @@ func runColdStart(r *mon.Run, id string, n int, ops ...string) {
 		op := ops[i%len(ops)]
 		spec, want := coldCase(w.Rng, op, pool)
 		w.Case(true, []byte("cold"), []byte(spec))
-		cmd := exec.Command(exe, "-cold", spec)
+		cmd := exec.Command(exe, "-cold", strings.Fields(spec)[0])
 		cmd.Env = append(os.Environ(), "GORACE=halt_on_error=0")
+		if np := coldProcs[(i/len(ops))%len(coldProcs)]; np != 0 {
+			cmd.Env = append(cmd.Env, fmt.Sprintf("GOMAXPROCS=%d", np))
+			spec += fmt.Sprintf(" [GOMAXPROCS=%d]", np)
+			w.Class(fmt.Sprintf("%s:cold:GOMAXPROCS=%d", id, np))
+		}
 		outb, err := cmd.CombinedOutput()
 		got := ""
 		for _, l := range strings.Split(string(outb), "\n") {
